@@ -16,6 +16,7 @@ CORPUS = [
     ["reset", "ssave 1 1 9 5500", "sync -", "ssave 1 1 9 -4500", "sync -"],
     ["reset", "outage up 1 7", "outage t0 2 7", "outage slow 3 6", "outage down 4 4", "outage down 5 0",
      "stale t0 6 1 2", "stale down 7 5 3", "sync -", "fsync post"],
+    ["reset", "flap mgU2F 1 7", "flap genTOTP 2 2", "flap addUser 3 0", "flap deleteUser 4 5", "sync -"],
 ]
 OFFS = [-4500, 5500, 5500, 20500, 100500]
 TICKS = [7000, 30000]
@@ -46,8 +47,11 @@ def gen_history(rng, length, heavy):
             ops.append("fsync %s" % rng.choice(["pre", "post"]))
         elif r < 0.95 + heavy * 0.6:
             ops.append("outage %s %d %d" % (rng.choice(MODES), rng.randint(6, 8), rng.randint(0, 23)))
-        elif r < 0.95 + heavy:
+        elif r < 0.95 + heavy * 0.8:
             ops.append("stale %s %d %d %d" % (rng.choice(MODES), rng.randint(6, 8), rng.choice(U2F_PIDS), rng.randint(0, 23)))
+        elif r < 0.95 + heavy:
+            route = rng.choice(["mgU2F", "genTOTP", "addUser", "deleteUser"])
+            ops.append("flap %s %d %d" % (route, rng.randint(6, 8), rng.choice(U2F_PIDS) if route == "mgU2F" else rng.randint(0, 23)))
         else:
             ops.append("sync -")
     ops += ["sync -", "fsync %s" % rng.choice(["pre", "post"])]
@@ -69,6 +73,8 @@ def canon(line):
     # the sanity run of the outage matrix (primary reachable) is not modelled route by route
     if line.startswith("ok sanity"):
         return "ok sanity | " + line.split(" | ")[-1]
+    if line.startswith("ok flap"):
+        return "ok flap | " + line.split(" | ")[-1]
     return line
 
 
@@ -104,6 +110,8 @@ def judge_ops(hist, impl):
         if f[0] == "outage" and f[1] != "up" and line.startswith("ok unchanged="):
             toks = line.split(" | ")[0].split()[1:]
             out.append((i, "outage %s %s" % (f[1], " ".join(toks)), "outage-" + f[1]))
+        if f[0] == "flap" and line.startswith("ok flap"):
+            out.append((i, "flap " + " ".join(line.split(" | ")[0].split()[3:]), "outage-mid-request"))
         if f[0] == "stale" and line.startswith("ok begin="):
             out.append((i, "stale %s %s" % (f[4], w[3].split("=", 1)[1]), "stale-overwrite"))
         if cc is not None:
@@ -134,7 +142,7 @@ def run_histories(ctx, hists, tag):
     return res
 
 
-def shrink(ctx, hist, kind_prefix, rounds=3):
+def shrink(ctx, hist, kind_prefix, rounds=8):
     """delta-debug a failing history: all single-op removals of a round run in one harness call"""
     cur = list(hist)
     for _ in range(rounds):
@@ -203,6 +211,7 @@ def run(ctx):
     deletions_mirrored = 0
     profile_kinds = collections.Counter()
     outage_tokens = collections.Counter()
+    flap_points = collections.Counter()
     for r in res:
         prev_c = None
         for i, (o, l) in enumerate(zip(r["hist"], r["impl"])):
@@ -232,6 +241,9 @@ def run(ctx):
             if f[0] == "sync" and f[1] != "-" and l.split()[0] == "err":
                 fault_outcome["previous" if cc == prev_c else "new"] += 1
                 nontrivial.add(("fault", prev_c, p, f[1], f[2]))
+            if f[0] == "flap":
+                for t in l.split(" | ")[0].split()[3:]:
+                    flap_points[f[1] + ":" + ":".join(t.split(":")[1:3])] += 1
             if f[0] == "outage":
                 for t in l.split(" | ")[0].split()[2:]:
                     outage_tokens[f[1] + ":" + t.split("=")[-1]] += 1
@@ -249,6 +261,7 @@ def run(ctx):
         "op_kinds": dict(kinds), "syncs_that_mirrored_a_deletion": deletions_mirrored,
         "fault_points_by_statement": dict(fault_letters), "faulted_sync_outcome": dict(fault_outcome),
         "profile_kinds_saved": dict(profile_kinds), "outage_answers": dict(outage_tokens),
+        "outage_mid_request_points": dict(flap_points),
         "sync_sites": [s["lean"] for s in facts.get("c15_sync_sites", [])],
         "guard_table": {"%s/%s" % (g["func"], g["write"]): g["class"] for g in facts.get("c15_guard_table", [])},
         "samples": [{"op": o, "impl": l[:400]} for o, l in list(zip(ops, impl))[1:7]],
